@@ -29,18 +29,18 @@ Definition lc_step (s : lc) (h : nat) : option lc :=
   match h with
   | 0 => adv_q 1                                                  (* REQUEST_START *)
   | 2 | 1 => if Nat.leb (lc_rq s) 2 then setq 2 else None         (* REQUEST_URI_NORMALIZE, REQUEST_LINE *)
-  | 3 => if rng 2 5 (lc_rq s) then setq 3 else None               (* REQUEST_HEADER_DATA: raw bytes; the last flush may follow the trailer hook of a request cut short by close *)
+  | 3 => if Nat.leb 2 (lc_rq s) then Some s else None              (* REQUEST_HEADER_DATA: raw bytes handed to a data receiver; its last flush may even follow REQUEST_COMPLETE; not part of the documented order *)
   | 4 => if rng 2 3 (lc_rq s) then setq 3 else None               (* REQUEST_HEADERS *)
   | 5 | 19 => if rng 2 5 (lc_rq s) then setq 4 else None          (* REQUEST_BODY_DATA (cfg-level and tx-level) *)
-  | 7 => if rng 3 5 (lc_rq s) then setq 5 else None               (* REQUEST_TRAILER_DATA *)
+  | 7 => if Nat.leb 3 (lc_rq s) then Some s else None              (* REQUEST_TRAILER_DATA (raw) *)
   | 8 => if rng 2 5 (lc_rq s) then setq 5 else None               (* REQUEST_TRAILER *)
   | 9 => adv_q 6                                                  (* REQUEST_COMPLETE: at most once *)
   | 10 => adv_s 1                                                 (* RESPONSE_START *)
-  | 11 => if (Nat.ltb (lc_rs s) 2 || Nat.eqb (lc_rs s) 3)%bool then Some (mklc (lc_rq s) 2 false) else None  (* RESPONSE_LINE; again after an interim 100 *)
-  | 12 => if rng 2 5 (lc_rs s) then sets 3 else None              (* RESPONSE_HEADER_DATA *)
+  | 11 => if Nat.leb (lc_rs s) 3 then Some (mklc (lc_rq s) 2 false) else None  (* RESPONSE_LINE; again after an interim 100 response (which may have no header bytes at all) *)
+  | 12 => if Nat.leb 2 (lc_rs s) then Some s else None             (* RESPONSE_HEADER_DATA (raw) *)
   | 13 => if rng 2 3 (lc_rs s) then sets 3 else None              (* RESPONSE_HEADERS *)
   | 14 | 20 => if rng 1 5 (lc_rs s) then sets 4 else None         (* RESPONSE_BODY_DATA; a line-less (HTTP/0.9 style) response goes straight from start to body *)
-  | 15 => if rng 3 5 (lc_rs s) then sets 5 else None              (* RESPONSE_TRAILER_DATA *)
+  | 15 => if Nat.leb 3 (lc_rs s) then Some s else None             (* RESPONSE_TRAILER_DATA (raw) *)
   | 16 => if rng 2 5 (lc_rs s) then sets 5 else None              (* RESPONSE_TRAILER *)
   | 17 => adv_s 6                                                 (* RESPONSE_COMPLETE: at most once *)
   | 18 => if (Nat.eqb (lc_rq s) 6 && Nat.eqb (lc_rs s) 6)%bool then Some (mklc 6 6 true) else None   (* TRANSACTION_COMPLETE *)
@@ -48,10 +48,17 @@ Definition lc_step (s : lc) (h : nat) : option lc :=
   end%nat.
 Fixpoint lc_accepts (s : lc) (tr : list nat) : bool :=
   match tr with [] => true | h :: r => match lc_step s h with Some s' => lc_accepts s' r | None => false end end.
+(* where a trace is rejected: the offending hook and the monitor state it met *)
+Fixpoint lc_first_reject (s : lc) (tr : list nat) : option (nat * lc) :=
+  match tr with [] => None | h :: r => match lc_step s h with Some s' => lc_first_reject s' r | None => Some (h, s) end end.
 (* hooks delivered for transaction i, in order *)
 Definition trace_of (evs : list oev) (i : nat) : list nat :=
   map oe_hook (filter (fun e => Nat.eqb (oe_tx e) i) evs).
 Definition all_events (calls : list ocall) : list oev := concat (map oc_events calls).
+Definition C05_rejects (calls : list ocall) : list (nat * (nat * lc)) :=
+  let evs := all_events calls in
+  flat_map (fun i => match lc_first_reject lc0 (trace_of evs i) with Some x => [(i, x)] | None => [] end)
+           (seq 0 (S (fold_right Nat.max 0%nat (map oe_tx evs)))).
 Definition chk_C05 (calls : list ocall) : bool :=
   let evs := all_events calls in
   forallb (fun i => lc_accepts lc0 (trace_of evs i)) (seq 0 (S (fold_right Nat.max 0%nat (map oe_tx evs)))).
